@@ -29,6 +29,7 @@ let dispatch kind fields =
   match kind with
   | "C14" -> run_c14 fields
   | "SESS" -> K_sess.run_sess fields
+  | "VISO" -> K_viso.run_viso fields
   | _ -> failwith ("unknown kind " ^ kind)
 
 let () =
